@@ -52,7 +52,7 @@ NoClosed == [s \in SandboxSet |-> <<>>]
 Close(cl, s, kind, who) == [cl EXCEPT ![s] = Append(@, <<kind, who>>)]
 
 InitCst ==
-  LET c0 == CInit(SandboxSet, TRUE, Fits) IN
+  LET c0 == CInit(SandboxSet, TRUE, Fits, [s \in SandboxSet |-> 0]) IN
   [c0 EXCEPT !.entry = [s \in SandboxSet |-> [f \in FuncSet |-> f]]]
 
 MInit ==
